@@ -32,6 +32,9 @@ pub enum VecJson {
     Text(String),
     List(Vec<VecJson>),
     Map(Vec<(String, VecJson)>),
+    /// never constructed: makes a node of this type several times the size of a serde_json::Value
+    /// (nothing the engine does may depend on how large the data type's nodes are)
+    Pad([u64; 14]),
 }
 impl Default for VecJson {
     fn default() -> Self {
@@ -447,6 +450,7 @@ fn from_vec(v: &VecJson) -> J {
         VecJson::Text(s) => J::Str(s.clone()),
         VecJson::List(l) => J::Arr(l.iter().map(from_vec).collect()),
         VecJson::Map(m) => J::Obj(m.iter().map(|(k, v)| (k.clone(), from_vec(v))).collect()),
+        VecJson::Pad(_) => J::Null,
     }
 }
 fn to_f64j(j: &J) -> F64Json {
@@ -555,12 +559,39 @@ pub fn run(ctx: &Ctx) -> Result<Evidence, String> {
     let n_a = ctx.tier.pick(150_000, 30_000_000);
     let n_b = pair_docs.len() * cmp_q.len();
     let n_c = val_q.len();
+    // the size-boundary documents x the boundary queries, completely (not sampled)
+    let bdocs: Vec<J> = gen::boundary_docs();
+    let bqs: Vec<String> = gen::boundary_queries().iter().map(|s| s.to_string()).collect();
+    let n_d = bdocs.len() * bqs.len();
+    // documents thousands of levels deep (built, not parsed) under descendant queries
+    let very_deep: Vec<J> = [1500usize, 1800, 2400, 4000]
+        .iter()
+        .map(|&n| {
+            let mut d = J::Obj(vec![("k".into(), J::int(0)), ("l".into(), J::Arr(vec![J::int(1), J::int(2)]))]);
+            for i in 0..n {
+                d = if i % 2 == 0 { J::Obj(vec![("k".into(), J::int(i as i64)), ("n".into(), d)]) } else { J::Arr(vec![d, J::int(i as i64)]) };
+            }
+            d
+        })
+        .collect();
+    let vd_q = ["$..k", "$..[1]", "$..l[0]", "$..[?@.k > 3990]"];
+    let n_e = very_deep.len() * vd_q.len();
     let seed = ctx.seed;
 
-    let acc = par_run(ctx, n_a + n_b + n_c, |i, acc: &mut Acc| {
+    let acc = par_run(ctx, n_a + n_b + n_c + n_d + n_e, |i, acc: &mut Acc| {
         let (q, d, fam): (&str, &J, &str);
         let mut r = Rng::stream(seed, 1500 + i as u64);
-        if i < n_a {
+        if i >= n_a + n_b + n_c + n_d {
+            let k = i - n_a - n_b - n_c - n_d;
+            q = vd_q[k % vd_q.len()];
+            d = &very_deep[k / vd_q.len()];
+            fam = "very-deep-documents";
+        } else if i >= n_a + n_b + n_c {
+            let k = i - n_a - n_b - n_c;
+            q = &bqs[k % bqs.len()];
+            d = &bdocs[k / bqs.len()];
+            fam = "size-boundaries";
+        } else if i < n_a {
             q = &general_q[r.below(general_q.len() as u64) as usize];
             d = &docs[r.below(n_general as u64) as usize];
             fam = "general";
@@ -586,7 +617,7 @@ pub fn run(ctx: &Ctx) -> Result<Evidence, String> {
         }
         // several descendant segments over a large document multiply the work of four
         // implementations; those combinations are C01's business
-        if fam == "general" && q.matches("..").count() >= 2 && d.node_count() > 150 {
+        if (fam == "general" || fam == "size-boundaries") && q.matches("..").count() >= 2 && d.node_count() > 150 {
             acc.count("skipped_multi_descendant_on_large_document", 1);
             return;
         }
